@@ -215,7 +215,7 @@ theorem rels_ok (L : List RelSel) (ha : relsAll (Good c P) L)
     simp only [compileRels, satHasAny, matchAny_cons]
     rw [rel_ok r ha.1 l e kids hf hl, rels_ok rest ha.2 l e kids hf hl]
 theorem rel_ok (r : RelSel) (ha : r.All (Good c P))
-    (l : Loc) (e : Elem) (kids : List Node) (hf : l.focus = .elem e kids) (hl : P l) :
+    (l : Loc) (e : Elem) (kids : List Node) (_hf : l.focus = .elem e kids) (hl : P l) :
     matchSel c l e (compileRel r) = satRel c l r := by
   cases r with
   | mk k x =>
